@@ -137,6 +137,9 @@ pub struct SubrunInfo {
     pub evaluations: u64,
     pub nontrivial: u64,
     pub exhaustive: bool,
+    /// summed over shards (CPU-seconds of worker time, not wall time)
+    #[serde(default)]
+    pub worker_s: f64,
 }
 
 #[derive(Clone, Debug, Serialize, Deserialize)]
@@ -321,6 +324,7 @@ impl Worker {
         items: impl Iterator<Item = C>,
         mut check: impl FnMut(&mut proc::Ctx, &C) -> Outcome,
     ) {
+        let t0 = std::time::Instant::now();
         let mut info = SubrunInfo { name: sub.to_string(), kind: "exhaustive".into(), bound: bound.into(), exhaustive: true, ..Default::default() };
         let mut reported: HashSet<String> = HashSet::new();
         for (i, case) in items.enumerate() {
@@ -342,6 +346,7 @@ impl Worker {
                 }
             }
         }
+        info.worker_s = t0.elapsed().as_secs_f64();
         self.sum.subruns.push(info);
     }
 
@@ -356,6 +361,7 @@ impl Worker {
         check: impl FnMut(&mut proc::Ctx, &C) -> Outcome,
     ) {
         let cases = self.share(total);
+        let t0 = std::time::Instant::now();
         let mut info = SubrunInfo { name: sub.to_string(), kind: "random".into(), bound: format!("{total} generated cases (all shards), choice stream {}..={} words", choice_len.0, choice_len.1), ..Default::default() };
         if cases == 0 {
             self.sum.subruns.push(info);
@@ -461,6 +467,7 @@ impl Worker {
                 }
             }
         }
+        info.worker_s = t0.elapsed().as_secs_f64();
         self.sum.subruns.push(info);
     }
 
